@@ -26,6 +26,9 @@
 //!                                         to_html_branching, 1 / 2 in-order / out-of-order branching
 //!                                         streams; the keys are written into <!--bo-item-KEY-->
 //!        (5 ..) modes 2 / 3               in-order / out-of-order stream with branch markers
+//!        (11 mode label view)             an island: <leptos-island data-component data-props> with the
+//!                                         props {"label": label} serialised by serde_json (what #[island]
+//!                                         does), children (span, <leptos-children> view); mode as (9 ..)
 //!        (10 form position s)             the view! literal attribute form `form` in the position `position`
 //!        (8 child position s)             the view! child form `child` in the position `position`
 //!                                         (macro-inlined literals: static_grid)
@@ -371,6 +374,9 @@ fn static_view(k: i64) -> String {
         9 => view! { <section><div class="a\" onclick=\"alert(1)" data-x="&quot;&amp;">"&lt;b&gt;&amp;amp;<b>x</b>"</div><textarea>"</textarea><img src=x>"</textarea></section> }.to_html(),
         10 => view! { <div><span>"<!--"</span><span>"--><script>alert(1)</script>"</span><input value="'\"><svg onload=alert(1)>"/></div> }.to_html(),
         11 => view! { <ul><li><a href="javascript:alert('x')\"<>">"<a href=x>"</a></li><li id="</li></ul><p>">"</li></ul>"</li></ul> }.to_html(),
+        // unquoted text (rstml raw text: the tokens as they are written, spacing not preserved)
+        13 => view! { <div>a & b &amp; c</div> }.to_html(),
+        14 => view! { <div><p>a & b &amp; c "q" 'r' d</p><span>&lt;b&gt; &#60; x</span></div> }.to_html(),
         // the scope class of `view! { class = ..., }`: on every element, inert or not
         _ => view! { class = "g\" onclick=\"alert(1)", <div><p>"static child"</p><span class="own">"x"</span>{1}</div> }.to_html(),
     }
@@ -651,6 +657,20 @@ fn streamed(c: &Sexp) -> String {
     })
 }
 
+/// (11 mode label view)
+fn island(c: &Sexp) -> String {
+    use tachys::html::islands::{Island, IslandChildren};
+    let label = text(c.at(2));
+    let props = serde_json::to_string(&serde_json::json!({ "label": label })).expect("json");
+    let inner = (span().child(label), IslandChildren::new(view(c.at(3))));
+    let v = (Island::new("Counter", inner).with_props(props), p().child("after"));
+    match c.at(1).num() {
+        0 => v.to_html(),
+        1 => futures::executor::block_on(v.to_html_stream_in_order().collect::<String>()),
+        _ => futures::executor::block_on(v.to_html_stream_out_of_order().collect::<String>()),
+    }
+}
+
 /// (9 mode keytype rows): tachys' keyed list with the keys in the branch comments
 fn keyed_list(c: &Sexp) -> String {
     use tachys::view::keyed::keyed;
@@ -870,6 +890,7 @@ pub fn run(c: &Sexp) -> Sexp {
         5 => streamed(c),
         8 => static_grid(c.at(1).num(), c.at(2).num(), text(c.at(3))),
         9 => keyed_list(c),
+        11 => island(c),
         10 => attr_grid(c.at(1).num(), c.at(2).num(), text(c.at(3))),
         _ => String::new(),
     };
